@@ -954,6 +954,10 @@ func (b *Body) admissibleCall(call *ssa.Call) string {
 		if strings.HasPrefix(f.Name(), "Valid") {
 			return "the well-formedness gate"
 		}
+		// a classification of an error by the library itself
+		if len(call.Call.Args) == 1 && isErrorType(call.Call.Args[0].Type()) {
+			return "an error's identity (" + fname(f) + ")"
+		}
 	}
 	return ""
 }
@@ -1150,4 +1154,159 @@ func (b *Body) textlessNullOnlyWhenRaw(l *Ledger) {
 			l.add("R-NULLSPELL", b.Name, key, b.rel(f.Pos()), Discharged, fmt.Sprintf("the method answers from raw == nil alone, and each of its %d call site(s) asks it only under which == eRaw or about a node just made from a text", sites), true)
 		}
 	}
+}
+
+// memberHelper: g looks up the member named by one of its string parameters in the operation
+// and hands back (string, present bool[, error]) such that
+//   - present is true only where the lookup found the member and it is not null,
+//   - the string handed back with present == true is what the codec's decoder made of the
+//     member's text, and the error is that decoder's.
+// Accessors that go through such a helper are judged on the helper's results.
+type memberHelperInfo struct {
+	nameIdx, strIdx, presentIdx, errIdx int
+	errIsPresence                       bool // (string, error): a nil error says the member was there, not null and decoded
+}
+
+func (b *Body) memberHelper(g *ssa.Function) (*memberHelperInfo, bool) {
+	if g == nil || len(g.Blocks) == 0 || g.Pkg != b.Lib {
+		return nil, false
+	}
+	res := g.Signature.Results()
+	info := &memberHelperInfo{nameIdx: -1, strIdx: -1, presentIdx: -1, errIdx: -1}
+	for i := 0; i < res.Len(); i++ {
+		t := res.At(i).Type()
+		switch {
+		case isErrorType(t):
+			info.errIdx = i
+		case isStringType(t):
+			info.strIdx = i
+		case typeShort(t) == "bool":
+			info.presentIdx = i
+		default:
+			return nil, false
+		}
+	}
+	if info.strIdx < 0 || (info.presentIdx < 0 && info.errIdx < 0) {
+		return nil, false
+	}
+	info.errIsPresence = info.presentIdx < 0
+	var lk *ssa.Lookup
+	n := 0
+	allInstrs(g, func(i ssa.Instruction) {
+		x, ok := i.(*ssa.Lookup)
+		if !ok {
+			return
+		}
+		if p, isP := x.Index.(*ssa.Parameter); isP && isStringType(p.Type()) {
+			if mt, isM := x.X.Type().Underlying().(*types.Map); isM {
+				if _, isPtr := mt.Elem().Underlying().(*types.Pointer); isPtr {
+					lk = x
+					info.nameIdx = paramIdx(p)
+					n++
+				}
+			}
+		}
+	})
+	if n != 1 {
+		return nil, false
+	}
+	var okv, objv ssa.Value
+	if lk.CommaOk {
+		for _, ex := range extractOf(lk, 1) {
+			okv = ex
+		}
+		for _, ex := range extractOf(lk, 0) {
+			objv = ex
+		}
+	} else {
+		objv = lk
+	}
+	if objv == nil {
+		return nil, false
+	}
+	for _, r := range liveReturns(g) {
+		if info.errIsPresence {
+			if b.definitelyNonNilErr(retVal(r, info.errIdx), r.Block(), 0) {
+				continue
+			}
+		} else {
+			pv := retVal(r, info.presentIdx)
+			if k, isK := boolConst(pv); isK && !k {
+				continue
+			}
+		}
+		// may say present: found and not null …
+		found := !lk.CommaOk
+		for _, f := range dominatingFacts(r.Block()) {
+			if okv != nil && f.V == okv && f.True {
+				found = true
+			}
+		}
+		if !found || !knownNonNilAt(objv, r.Block()) {
+			return nil, false
+		}
+		// … the string is the decoder's, from the member's text …
+		if why := b.decodedString(retVal(r, info.strIdx), objv); why != "" {
+			return nil, false
+		}
+		// … and so is the error
+		if info.errIdx >= 0 {
+			ev := retVal(r, info.errIdx)
+			if !isNilConst(ev) {
+				call, _, isRes := asResult(ev)
+				if !isRes || !b.codecDecodeWrapper(call.Call.StaticCallee(), 0) {
+					return nil, false
+				}
+			} else if info.errIsPresence {
+				// the constant nil says "decoded": only behind the decoder's success
+				decoded := false
+				allInstrs(g, func(i ssa.Instruction) {
+					if call, isCall := i.(*ssa.Call); isCall && b.codecDecodeWrapper(call.Call.StaticCallee(), 0) {
+						if ok, _ := b.successDominates(call, r); ok {
+							decoded = true
+						}
+					}
+				})
+				if !decoded {
+					return nil, false
+				}
+			}
+		}
+	}
+	return info, true
+}
+
+// viaMemberHelper: fn obtains the member called `member` through a member helper; the values
+// standing for (present, string, error) of that call.
+func (b *Body) viaMemberHelper(fn *ssa.Function, member string) (hc *ssa.Call, okv, strv, errv ssa.Value, ok bool) {
+	allInstrs(fn, func(i ssa.Instruction) {
+		call, isCall := i.(*ssa.Call)
+		if !isCall || ok {
+			return
+		}
+		g := call.Call.StaticCallee()
+		info, isH := b.memberHelper(g)
+		if !isH || info.nameIdx >= len(call.Call.Args) {
+			return
+		}
+		if k, isK := strConst(call.Call.Args[info.nameIdx]); !isK || k != member {
+			return
+		}
+		hc = call
+		if !info.errIsPresence {
+			for _, rv := range resultsOf(call, info.presentIdx) {
+				okv = rv
+			}
+		}
+		for _, rv := range resultsOf(call, info.strIdx) {
+			strv = rv
+		}
+		if info.errIdx >= 0 {
+			for _, rv := range resultsOf(call, info.errIdx) {
+				errv = rv
+			}
+		}
+		ok = okv != nil || (info.errIsPresence && errv != nil)
+	})
+	return
 }
